@@ -27,7 +27,8 @@ CLAIM = {
             "stub's own keys and keys_id); (R18.3) creation derives keys from the requested channel id and restart "
             "derives them from the *initial* channel id under which the entry was stored (never the permanent id), "
             "storing the same id as id0; setup re-derives only through channel_keys_with_channel_value; (R18.4) every "
-            "LDK per-commitment call passes INITIAL_COMMITMENT_NUMBER - n. The LND style is excluded by the property. "
+            "LDK per-commitment call passes INITIAL_COMMITMENT_NUMBER - n; (R18.5) the sweep path re-derives from the "
+            "descriptor's keys id unchanged. The LND style is excluded by the property. "
             "Does not decide key distinctness (collision resistance) nor that LDK's secrets form a BOLT-3 tree.",
     "note": "hkdf / sha256 / bip32 derivation functions are pure by name; LndKeyDerive excluded as the property says",
     "technique": "static analysis: dependence (taint) analysis of key-material arguments + argument-role agreement",
@@ -41,6 +42,7 @@ def run(ctx):
     r182(ctx)
     r183(ctx)
     r184(ctx)
+    r185(ctx)
 
 
 def r181(ctx):
@@ -307,3 +309,22 @@ def r184(ctx):
                    f"`{R.owner_name(p, b)}` calls {nm.rsplit('::', 1)[-1]} with `{render(e)[:80]}` (expected INITIAL_COMMITMENT_NUMBER - n)",
                    where=f"{b.file}:{c.line}", sample=render(e)[:60])
     ctx.floor("R18.4", "per-commitment index conversions", n, 8)
+
+
+def r185(ctx):
+    ctx.rule("R18.5", "re-derivation for sweeps uses the channel's keys id as given: MyKeysManager::derive_channel_keys hands its "
+                      "keys_id parameter unchanged to get_channel_keys_with_keys_id (the keys a descriptor names are the keys the "
+                      "channel was created with)")
+    p = ctx.prog
+    b = p.fn(f"{MKM}::derive_channel_keys")
+    ctx.touch(b)
+    fv = fnview(ctx, b)
+    sites = R.call_blocks(fv, lambda n: n == f"{MKM}::get_channel_keys_with_keys_id")
+    ctx.floor("R18.5", "get_channel_keys_with_keys_id call in derive_channel_keys", len(sites), 1)
+    for bi, ln, c in sites:
+        e = peel(fv.expr(c.args[1]))
+        ok = e[0] == "param" and e[1] == b.local_name(3)
+        ctx.ob("R18.5", ok, f"{b.name}/keys-id-unchanged",
+               f"derive_channel_keys derives from `{render(e)[:100]}`, not from the keys id it was given unchanged: for key styles whose "
+               "id is not already in that form the sweep path gets other keys than the channel has", where=f"{b.file}:{ln}",
+               sample="get_channel_keys_with_keys_id(keys_id, ..)")
